@@ -45,6 +45,7 @@ verus! {
 //@include spec.rs
 //@include lemmas.rs
 //@include stored.rs
+//@include decode.rs
 
 
 // ---------------- verified stand-ins for the iterator-adaptor expressions of write_rtreeindex ----------------
@@ -172,6 +173,7 @@ fn max_end_children(v: &Vec<RTreeNode>) -> (r: (u32, u32))
                 }
 //@at /calculate_offsets\(index_offsets, &child\.children, level - 1\);/ after
                 proof {
+                    [[L: loop/step_adds_item_size_and_subtree_sizes]]
                     assert forall|k: int| 0 <= k < lv implies (#[trigger] index_offsets@[k]) == old(index_offsets)@[k] + hdr_part(k, lv, i__1 + 1) + sz_kids(s, lv - 1, k + 1, i__1 + 1) by {
                         assert(io1[k] == old(index_offsets)@[k] + hdr_part(k, lv, i__1 as int) + sz_kids(s, lv - 1, k + 1, i__1 as int));
                         if k < lv - 1 {
@@ -205,7 +207,7 @@ fn max_end_children(v: &Vec<RTreeNode>) -> (r: (u32, u32))
 //@rule R6 min=2
 //@rule R7 min=3
 //@sub /fn write_tree<W: Write>\(/ => fn write_tree(
-//@sub /file: &mut W,/ => file: &mut Sink,
+//@sub /file: &mut W,/ => file: &mut ASink,
 //@sub /io::Result<u64>/ => Result<u64, IoError>
 //@ret r
 //@sig
@@ -266,9 +268,9 @@ fn max_end_children(v: &Vec<RTreeNode>) -> (r: (u32, u32))
                         assert(decreases_to!(nodes => child.children));
                         lemma_descend(s, cur - 1, dest, b, true, i__1 as int, childnode_offset as int);
                     }
-//@at /next_offset_offset \+= size;/ after
+//@at /next_offset_offset .*size;/ after
                     proof {
-                        assert(file@ == fmt_level(f0, s[i__1 as int].children, cur - 1, dest, kp0 + sz_kids(s, cur - 1, dest - 1, i__1 as int)));
+                        assert(file@ == fmt_level(f0, s[i__1 as int].children, cur - 1, dest, kp0 + sz_kids(s, cur - 1, dest - 1, i__1 as int))); [[L: loop1/child_subtree_written_with_its_true_children_position]]
                         assert(file@ == fmt_kids(old(file)@, s, cur - 1, dest, kp0, i__1 + 1));
                     }
 //@at /return Ok\(next_offset_offset\);/ before
@@ -278,6 +280,8 @@ fn max_end_children(v: &Vec<RTreeNode>) -> (r: (u32, u32))
 //@at /RTreeChildren::DataSections\(sections\) => \{/ after
             assert(sections.len() <= 65535); [[L: leaf_count_fits_u16]]
             let ghost h0 = put_hdr(old(file)@, true, sections@.len() as int);
+//@at /file\.put_u16\(sections\.len\(\) as u16\)\?;/ after
+            assert(file@ == h0); [[L: leaf_node_header_is_isleaf1_reserved0_count]]
 //@loop 2
                 invariant
                     [[L: loop2/items_done_are_published_leaf_items]]
@@ -300,6 +304,8 @@ fn max_end_children(v: &Vec<RTreeNode>) -> (r: (u32, u32))
                 assert(kids_wf(s, cur - 1, b, true));
                 lemma_mul_mono(0, s.len() as int, full(cur - 1, b));
             }
+//@at /file\.put_u16\(children\.len\(\) as u16\)\?;/ after
+            assert(file@ == h0); [[L: nonleaf_node_header_is_isleaf0_reserved0_count]]
 //@loop 3
                 invariant
                     [[L: loop3/frame]]
@@ -330,7 +336,7 @@ fn max_end_children(v: &Vec<RTreeNode>) -> (r: (u32, u32))
 //@extract fn bigtools/src/bbi/bbiwrite.rs write_rtreeindex
 //@rule R3 min=14
 //@sub /pub\(crate\) fn write_rtreeindex<W: Write \+ Seek>\(/ => fn write_rtreeindex(
-//@sub /file: &mut W,/ => file: &mut Sink,
+//@sub /file: &mut W,/ => file: &mut ASink,
 //@sub /io::Result<\(\)>/ => Result<(), IoError>
 //@sub /sections\s*\.first\(\)\s*\.map\(\|s\| \(s\.chrom, s\.start\)\)\s*\.unwrap_or\(\(0, 0\)\)/ => first_start_sections(sections)
 //@sub /sections\s*\.iter\(\)\s*\.map\(\|s\| \(s\.chrom, s\.end\)\)\s*\.max\(\)\s*\.unwrap_or\(\(0, 0\)\)/ => max_end_sections(sections)
@@ -351,6 +357,12 @@ fn max_end_children(v: &Vec<RTreeNode>) -> (r: (u32, u32))
         r is Ok ==> final(file)@ == fmt_index(old(file)@, nodes, levels as int, options.block_size, section_count, options.items_per_slot),
         [[L: index_size_is_header_plus_all_nodes]]
         r is Ok ==> final(file)@.len() == old(file)@.len() + 48 + above(nodes, levels as int, 0),
+        [[L: earlier_file_content_untouched]]
+        r is Ok ==> old(file)@.is_prefix_of(final(file)@),
+        [[L: reader_sees_published_header_with_root_bounds_and_end_of_data]]
+        r is Ok ==> rd_header(final(file)@, old(file)@.len() as int, options.block_size, section_count, root_start(nodes), root_end(nodes), old(file)@.len() as u64, options.items_per_slot),
+        [[L: reader_following_stored_pointers_from_the_root_finds_exactly_the_tree]]
+        r is Ok ==> decodes(final(file)@, old(file)@.len() as int + 48, nodes, levels as int),
 //@open
     let ghost b = options.block_size as int;
     let ghost lv = levels as int;
@@ -385,7 +397,7 @@ fn max_end_children(v: &Vec<RTreeNode>) -> (r: (u32, u32))
         decreases
             [[L: loop/termination]]
             lv__,
-//@at /if level > 0 \{/ before
+//@at /let level = lv__;/ after
         proof {
             lemma_above_bounds(nodes, lv, level as int);
             lemma_above_bounds(nodes, lv, level + 1);
@@ -394,11 +406,14 @@ fn max_end_children(v: &Vec<RTreeNode>) -> (r: (u32, u32))
         }
 //@at /write_tree\(file, &nodes, levels, level, next_offset, options\)\?;/ after
         proof {
-            assert(file@ == fmt_down(hdr, nodes, lv, level as int, p0));
+            assert(file@ == fmt_down(hdr, nodes, lv, level as int, p0)); [[L: loop/level_written_with_position_of_next_level_down]]
         }
 //@at /^\s*Ok\(\(\)\)/ before
     proof {
         lemma_down_len(hdr, nodes, lv, 0, p0);
+        lemma_above_bounds(nodes, lv, 0);
+        lemma_index_stored(old(file)@, nodes, lv, options.block_size, section_count, options.items_per_slot);
+        lemma_index_decodes(old(file)@, nodes, lv, options.block_size, section_count, options.items_per_slot);
     }
 //@end
 
